@@ -215,7 +215,7 @@ class C07(Prop):
         snap_inst = impl.cj(instances)
         snap_schema = impl.cj(v.schema)
         snap_store = dict((u, impl.cj(v.resolver.store[u])) for u in case["docs"] if case["via"][u] in ("store", "store#"))
-        scope0, depth0 = v.resolver.resolution_scope, len(v.resolver._scopes_stack)
+        scope0, depth0 = v.resolver.resolution_scope, impl.stack_depth(v.resolver)
         interesting = False
         for n, step in enumerate(steps):
             if not isinstance(step, list) or not step or step[0] not in OPS:
@@ -251,10 +251,10 @@ class C07(Prop):
                 res.fail(("history-dependent-result", step[0]),
                          "step %d %r after %r:\n reused validator: %r\n fresh validator:  %r" % (
                              n, step, steps[:n], str(got)[:300], str(want)[:300]))
-            if v.resolver.resolution_scope != scope0 or len(v.resolver._scopes_stack) != depth0:
+            if v.resolver.resolution_scope != scope0 or impl.stack_depth(v.resolver) != depth0:
                 res.fail(("scope-not-restored", step[0]),
                          "after step %d %r (history %r): resolution_scope=%r stack=%r, initially %r" % (
-                             n, step, steps[:n], v.resolver.resolution_scope, v.resolver._scopes_stack, scope0))
+                             n, step, steps[:n], v.resolver.resolution_scope, getattr(v.resolver, "_scopes_stack", "?"), scope0))
                 return res
             if impl.cj(instances) != snap_inst:
                 res.fail(("instance-modified", step[0]), "step %d %r" % (n, step))
